@@ -1468,6 +1468,7 @@ func (l *lexer) scanCmdSubst(r rune) bool {
 			next:     make(chan struct{}),
 			done:     make(chan struct{}),
 			cancel:   make(chan struct{}),
+			aliases:  l.aliases,
 			heredoc:  heredoc{c: make(chan struct{}, 1)},
 			line:     l.line,
 			col:      l.col,
@@ -1495,6 +1496,7 @@ func (l *lexer) scanCmdSubst(r rune) bool {
 			break
 		}
 		// apply changes
+		l.aliases = ll.aliases
 		l.comments = append(l.comments, ll.comments...)
 		l.line = ll.line
 		l.col = ll.col
